@@ -4,9 +4,9 @@ package codegenmodel
 import (
 	"archive/zip"
 	"bytes"
-	"io"
 	"context"
 	"fmt"
+	"io"
 	"os"
 	"path/filepath"
 	"sort"
